@@ -202,4 +202,22 @@ static void r_mod(word r[], const word a[], size_t n, const word mod[], size_t m
 	}
 }
 
+/* word j of (x >> s) where x = [m]e, zero beyond the array; s arbitrary */
+static word r_shr_word(const word e[], size_t m, size_t j, size_t s)
+{
+	size_t ws = s / B_PER_W, bs = s % B_PER_W;
+	word lo = (j + ws < m && j + ws >= j) ? e[j + ws] : 0;
+	word hi = (j + ws + 1 < m && j + ws + 1 > j) ? e[j + ws + 1] : 0;
+	return bs ? (lo >> bs) | (hi << (B_PER_W - bs)) : lo;
+}
+
+/* word j of (x << s) mod B^m */
+static word r_shl_word(const word e[], size_t m, size_t j, size_t s)
+{
+	size_t ws = s / B_PER_W, bs = s % B_PER_W;
+	word hi = (j >= ws && j - ws < m) ? e[j - ws] : 0;
+	word lo = (j >= ws + 1 && j - ws - 1 < m) ? e[j - ws - 1] : 0;
+	return bs ? (hi << bs) | (lo >> (B_PER_W - bs)) : hi;
+}
+
 #endif /* REF_H */
